@@ -60,11 +60,19 @@ def unescape(text):
         elif n == 'U':
             out.append(chr(int(text[i + 2:i + 10], 16)))
             i += 10
-        elif n in ESC and n != '0':
+        elif n in '01234567':
+            j = i + 1
+            while j < len(text) and j < i + 4 and text[j] in '01234567':
+                j += 1
+            out.append(chr(int(text[i + 1:j], 8)))
+            i = j
+        elif n == 'N' and text[i + 2:i + 3] == '{':
+            import unicodedata
+            j = text.index('}', i)
+            out.append(unicodedata.lookup(text[i + 3:j]))
+            i = j + 1
+        elif n in ESC:
             out.append(ESC[n])
-            i += 2
-        elif n == '0':
-            out.append('\0')
             i += 2
         else:
             raise ValueError('escape \\%s not generated' % n)
